@@ -918,6 +918,15 @@ class Machine:
         g = getattr(self, 'x_generics', None)
         if g and name in g:
             return g[name]
+        mm = re.match(r'^(?:core::|std::)?(?:num::)?(?:<impl )?([ui](?:8|16|32|64|128|size)|char)>?::(MIN|MAX|BITS)$', name)
+        if mm:
+            ty = mm.group(1)
+            bits = BITS[ty]
+            if mm.group(2) == 'BITS':
+                return Int('u32', bits)
+            if ty in SIGNED:
+                return Int(ty, -(1 << (bits - 1)) if mm.group(2) == 'MIN' else (1 << (bits - 1)) - 1)
+            return Int(ty, 0 if mm.group(2) == 'MIN' else (0x10FFFF if ty == 'char' else (1 << bits) - 1))
         if name.startswith('ZeroSized: '):
             ty = name[11:].strip()
             if ty.startswith('{closure@'):
